@@ -185,6 +185,20 @@ func paramClass(cs *refexp.Case) string {
 
 func c13Gen(c *core.Ctx) {
 	refexp.Product(func(cs refexp.Case) { core.Do(c, c13Case{Case: cs, Kind: "product"}, c13Exec) })
+	// a plain expansion inside $(( )): nounset applies there as well
+	for _, pr := range []refexp.Param{{Name: "v"}, {Name: "v", Set: true}, {Name: "v", Set: true, Value: "5"}, {Name: "v", Set: true, Value: "12"}, {Name: "1"}, {Name: "1", Args: []string{"7"}}, {Name: "2", Args: []string{"7"}}} {
+		for _, br := range []bool{false, true} {
+			for _, dq := range []bool{false, true} {
+				for _, nu := range []bool{false, true} {
+					var cs refexp.Case
+					cs.Param, cs.Set, cs.Value, cs.Args = pr.Name, pr.Set, pr.Value, pr.Args
+					cs.Braces, cs.DQ, cs.NoUnset, cs.InArith = br, dq, nu, true
+					cs.IFS, cs.IFSSet, cs.Other = " \t\n", true, "o1 o2"
+					core.Do(c, c13Case{Case: cs, Kind: "in-arithmetic"}, c13Exec)
+				}
+			}
+		}
+	}
 	// random draws: values, words and other-variable contents
 	n := c.Pick(40000, 10000000)
 	params := refexp.Params()
